@@ -5,6 +5,7 @@
 //                   independent of the wall clock; the sample certificates expire in 2027)
 // Buffers are exact-size and NOT NUL terminated, like the const arrays the sample apps pass.
 // Oracle: sanitizers; leak check after matrixSslDeleteKeys.
+#define C09_WORK_BOUND 3000000   /* SHA-1 finalisations per input; see c09_common.h (legit worst case with a sane iteration limit is 3x..6x below) */
 #define C09_HDR 1
 #define C09_PARTS 3
 #include "c09_common.h"
@@ -16,6 +17,7 @@ using namespace vf;
 using namespace c09;
 
 static void prop(Tape &t, Ctx &c) {
+    C09_WORK_RESET();
     uint8_t sel = t.u8();
     Parts ps = split_parts(t.p + t.pos, t.n - t.pos, 3);
     ExactBuf cert(ps.p[0], ps.n[0]), key(ps.p[1], ps.n[1]), ca(ps.p[2], ps.n[2]);
@@ -40,5 +42,5 @@ static void prop(Tape &t, Ctx &c) {
     if (rc >= 0 || plausible) c.nontrivial(fmt("load:%d:%u:%llx:%llx:%llx", rc, sel & 15, (unsigned long long) tlv_shape(cert.p, cert.n), (unsigned long long) tlv_shape(key.p, key.n), (unsigned long long) tlv_shape(ca.p, ca.n)));
     if (rc >= 0) c.sample(fmt("matrixSslLoadKeysMem certLen=%zu keyLen=%zu caLen=%zu key_type=%d opts=%d rc=%d", cert.n, key.n, ca.n, opts.key_type, (sel & 7) != 0, rc));
 }
-VF_TARGET("C09.load_keys_mem", prop, 4096, 45)
+VF_TARGET("C09.load_keys_mem", prop, 4096, 65)
 namespace vf { void vf_global_init(int, char **) { matrixSslOpen(); } }
